@@ -213,14 +213,20 @@ func (bc *Blockchain) handleConn(v *stratumsrv.Conn) error {
 
 	// send login response
 	{
-		bl := bc.Stratum.LastBlock
+		// the job gets its own copy of the template (see Server.SendJob): writing the recipient through
+		// the shared pointer would change the jobs of the miners that logged in before
+		bc.Stratum.RLock()
+		jobBl := *bc.Stratum.LastBlock
+		lastMinDiff := bc.Stratum.LastMinDiff
+		bc.Stratum.RUnlock()
+		bl := &jobBl
 
 		bl.Recipient = addr.Addr
 
 		blob := bl.Commitment().MiningBlob()
 		seed := blob.GetSeed()
 		jobid := strconv.FormatUint(util.RandomUint64(), 36)
-		target := util.GetTargetBytes(bc.Stratum.LastMinDiff)
+		target := util.GetTargetBytes(lastMinDiff)
 
 		if !config.IS_MASTERCHAIN {
 			if len(blob.Chains) != 1 {
